@@ -8,6 +8,17 @@ namespace Sfw.Canon
 
 def MaxSCEVDepth : Nat := 100
 
+/-- `MaxSCEVNodes` -/
+def MaxSCEVNodes : Nat := 128
+
+/-- `scevNodes`: number of nodes of the expression tree (Go saturates at 2^30, far above anything
+    the guard lets through) -/
+def SCEV.nodes : SCEV → Nat
+  | .generic _ x y => 1 + x.nodes + y.nodes
+  | .addRec a b _ => 1 + a.nodes + b.nodes
+  | .max x y => 1 + x.nodes + y.nodes
+  | _ => 1
+
 /-- block of the instruction behind a value (`instr.Block()`), if it is an instruction -/
 def valBlock? (f : Func) : Val → Option Nat
   | .instr id => (f.instr? id).map (·.blk)
@@ -74,7 +85,10 @@ def computeSCEV (f : Func) (l : Loop) : Nat → Val → SCEVCache → SCEV × SC
               | some x, some y =>
                 let (left, cache) := computeSCEV f l fuel x cache
                 let (right, cache) := computeSCEV f l fuel y cache
-                (.generic i.op left right, cache)   -- foldSCEV
+                -- size guard (fix "bound the size of SCEV expressions built for one value")
+                if left.nodes + right.nodes + 1 > MaxSCEVNodes then
+                  (.unknown (some v) (!l.contains i.blk), cache)
+                else (.generic i.op left right, cache)   -- foldSCEV
               | _, _ => (.unknown (some v) (!l.contains i.blk), cache)
             | _ => (.unknown (some v) (!l.contains i.blk), cache)
         | _ => (.unknown (some v) true, cache)
